@@ -1,6 +1,7 @@
 import Driver.Util
 import Driver.Containers
 import Driver.Object
+import Driver.Render
 
 /-
   One function per op of the line protocol.  Each takes the op's JSON (which also carries the
@@ -134,6 +135,7 @@ def dispatch (j : Json) : Except String Res := do
   | "hextoansi" => hexOp j
   | "config" => configOp j
   | "hook" => hookOp j
+  | "render" => renderOp j
   | "paging" => pagingOp j
   | "splice" => spliceOp j
   | "history" => historyOp j
